@@ -277,15 +277,26 @@ func checkConn(c *vm.Ctx, r *vm.Rand) {
 		pkts[i] = pkt{int32(r.Intn(300)), d}
 		sizes = append(sizes, sz)
 	}
-	wit := func() any { return map[string]any{"threshold": threshold, "packets": n, "sizes": sizes} }
+	var senderCipherFirst, recvCipherFirst bool
+	wit := func() any {
+		return map[string]any{"threshold": threshold, "packets": n, "sizes": sizes, "sender_sets_cipher_first": senderCipherFirst, "receiver_sets_cipher_first": recvCipherFirst}
+	}
 	wire := &bytes.Buffer{}
 	// sender
 	sb, _ := aes.NewCipher(secret)
 	sender := mcnet.WrapConn(&duplexEnd{r: bytes.NewReader(nil), w: wire})
 	// the unused direction still needs a stream
 	sb2, _ := aes.NewCipher(secret)
-	sender.SetCipher(CFB8.NewCFB8Encrypt(sb, secret), CFB8.NewCFB8Decrypt(sb2, secret))
-	sender.SetThreshold(threshold)
+	// the two settings are independent: either order, on either end
+	senderCipherFirst, recvCipherFirst = r.Bool(), r.Bool()
+	if senderCipherFirst {
+		sender.SetCipher(CFB8.NewCFB8Encrypt(sb, secret), CFB8.NewCFB8Decrypt(sb2, secret))
+		sender.SetThreshold(threshold)
+	} else {
+		sender.SetThreshold(threshold)
+		sender.SetCipher(CFB8.NewCFB8Encrypt(sb, secret), CFB8.NewCFB8Decrypt(sb2, secret))
+		c.Cover("conn.threshold-set-before-cipher")
+	}
 	ok := true
 	if c.Guard("conn/write", wit, func() {
 		for i, p := range pkts {
@@ -334,8 +345,13 @@ func checkConn(c *vm.Ctx, r *vm.Rand) {
 	rb, _ := aes.NewCipher(secret)
 	rb2, _ := aes.NewCipher(secret)
 	recv := mcnet.WrapConn(&duplexEnd{r: &inject.ChunkReader{B: wire.Bytes(), Plan: plan}, w: &bytes.Buffer{}})
-	recv.SetCipher(CFB8.NewCFB8Encrypt(rb, secret), CFB8.NewCFB8Decrypt(rb2, secret))
-	recv.SetThreshold(threshold)
+	if recvCipherFirst {
+		recv.SetCipher(CFB8.NewCFB8Encrypt(rb, secret), CFB8.NewCFB8Decrypt(rb2, secret))
+		recv.SetThreshold(threshold)
+	} else {
+		recv.SetThreshold(threshold)
+		recv.SetCipher(CFB8.NewCFB8Encrypt(rb, secret), CFB8.NewCFB8Decrypt(rb2, secret))
+	}
 	c.Eval(vm.Hash64(secret, []byte(fmt.Sprint(threshold, sizes))), true)
 	c.Guard("conn/read", wit, func() {
 		var p pk.Packet
